@@ -110,3 +110,53 @@ DRIVERS = [
     Driver('C09/B7.transitivity', cases_triples, oracle_triples, nchunks=8,
            rule='all ordered triples of the 23 non-blank pool values through OP_LT', bound='23^3 (complete for the pool)', exhaustive=True),
 ]
+
+
+# ---- dates with a time of day: whatever serial the library gives a stamp, ALL comparisons must go by that one number -------------------------
+STAMPS = [(2020, 1, 1, 12, 0, 0), (2020, 1, 2), (2020, 1, 1), (2020, 1, 1, 0, 0, 0, 500000), (2020, 1, 1, 0, 0, 1), (2020, 1, 1, 23, 59, 59),
+          (1999, 12, 31, 6, 30), (2024, 2, 29, 12)]
+
+
+def cases_stamps(tier, seed):
+    n = len(STAMPS)
+    for i, j in itertools.product(range(n), repeat=2):
+        yield dict(kind='pair', i=i, j=j)
+    for i, j in itertools.product(range(n), repeat=2):
+        for k in (0, 1, 2):
+            yield dict(kind='triple', i=i, j=j, k=k)
+
+
+def oracle_stamps(c):
+    from xlcalculator.xlfunctions import operator, func_xltypes as T
+    a, b = datetime.datetime(*STAMPS[c['i']]), datetime.datetime(*STAMPS[c['j']])
+    da, db = T.DateTime(a), T.DateTime(b)
+    try:
+        sa, sb = float(T.Number.cast(da)), float(T.Number.cast(db))                  # the serials the library itself assigns
+        if c['kind'] == 'pair':
+            obs = {op: bool(getattr(operator, fn)(da, db).value) for op, fn in OPS.items()}
+            exp = {'<': sa < sb, '>': sa > sb, '<=': sa <= sb, '>=': sa >= sb, '=': sa == sb, '<>': sa != sb}
+            if obs != exp:
+                return False, (f'two dates compare as their serials {sa} and {sb}', exp), obs
+            mixed = {op: (bool(getattr(operator, fn)(da, T.Number(sb)).value), bool(getattr(operator, fn)(T.Number(sa), db).value)) for op, fn in OPS.items()}
+            if any(v != (exp[op], exp[op]) for op, v in mixed.items()):
+                return False, (f'a date against a number compares as its serial ({sa} vs {sb})', exp), mixed
+            return True, 'dates compare as their serials', 'ok'
+        # transitivity through a plain number lying between / beside the two serials
+        mid = [min(sa, sb) + abs(sa - sb) / 2, max(sa, sb) + 1, min(sa, sb) - 1][c['k']]
+        m = T.Number(mid)
+
+        def lt(x, y):
+            return bool(operator.OP_LT(x, y).value)
+        for x, y, z in ((da, m, db), (db, m, da), (m, da, db), (da, db, m)):
+            if lt(x, y) and lt(y, z) and not lt(x, z):
+                return False, 'a<b and b<c implies a<c (dates and a number)', (str(x), str(y), str(z))
+    except Exception as ex:      # noqa
+        return False, 'booleans', f'raise {type(ex).__name__}: {str(ex)[:160]}'
+    return True, 'transitive', 'ok'
+
+
+DRIVERS.append(Driver('C09/B7.stamps', cases_stamps, oracle_stamps, nchunks=2, exhaustive=True,
+                      rule='8 dates with and without a time of day (noon, one second, half a second, end of day): all ordered pairs x 6 operators - two dates '
+                           'compare exactly as the serial numbers the library assigns them do, and a date against the number equal to the other serial likewise; '
+                           'transitivity of < over (date, number, date) triples with the number between / above / below the serials',
+                      bound='8 x 8 pairs, 8 x 8 x 3 triples'))
